@@ -58,7 +58,8 @@ class GenericQuantity(object):
         if not units:
             return value
 
-        if isinstance(value, (float, int)):
+        if isinstance(value, (float, int, np.integer, np.floating)):
+            # (numpy scalars: an element of an integer or float32 array)
             return Quantity(value, units)
         elif isinstance(value, np.ndarray):
             new_value = value.view(ArrayQuantity)
